@@ -236,7 +236,11 @@ def check_case(ctx, tokens, comp, doc, texts=None, style=None):
         if a.ok and (not b.ok or a.value != b.value):
             ctx.violation("renamed-tokens-evaluate-differently:%s" % route, case, {"tokens": tokens, "default_text": t_def, "custom_text": t_cus, "default": repr(a.value)[:300], "custom": b.desc() if not b.ok else repr(b.value)[:300]})
             return
-    for ast in ([["q", "$", [["child", [["name", n]]]]] for n in r.sample(["a", "b", "c", "k", "v"], 2)] + [["q", "$", [["child", [["wild"]]]]], ["q", "$", [["desc", [["name", "a"]]]]], ["q", "$", [["child", [["name", "a"], ["name", "k"]]]]]]):
+    for ast in ([["q", "$", [["child", [["name", n]]]]] for n in r.sample(["a", "b", "c", "k", "v"], 2)] + [["q", "$", [["child", [["wild"]]]]], ["q", "$", [["desc", [["name", "a"]]]]], ["q", "$", [["child", [["name", "a"], ["name", "k"]]]]],
+                 # (a root query and a fake-root query of the same shape: under environments that exchange the two spellings the
+                 # very same text is the one here and the other there)
+                 ["q", "$", [["child", [["index", 0]]], ["child", [["name", "a"]]]]], ["q", "^", [["child", [["index", 0]]], ["child", [["name", "a"]]]]],
+                 ["q", "$", [["child", [["filter", ["cmp", ">=", ["sq", ["q", "@", [["child", [["name", "k"]]]]]], ["lit", 1]]]]]]], ["q", "^", [["child", [["filter", ["test", ["q", "@", [["child", [["name", "a"]]]]]]]]]]]]):
         e_def = Renderer(random.Random(seed), plain=True).top(ast)
         e_cus = Renderer(random.Random(seed), plain=True, tokens=tokens).top(ast)
         for proj in (jsonpath.Projection.RELATIVE, jsonpath.Projection.FLAT):
